@@ -69,7 +69,7 @@ fn raw_expr() -> BoxedStrategy<RawExpr> {
             2 => inner.clone().prop_map(|a| RawExpr::Not(Box::new(a))),
             4 => (0..5u8, inner.clone(), inner.clone())
                 .prop_map(|(op, a, b)| RawExpr::Bin(op, Box::new(a), Box::new(b))),
-            3 => (0..4u8, prop::collection::vec(inner, 0..=2)).prop_map(|(k, args)| RawExpr::Call(k, args)),
+            3 => (0..16u8, prop::collection::vec(inner, 0..=2)).prop_map(|(k, args)| RawExpr::Call(k, args)),
         ]
     })
     .boxed()
@@ -145,6 +145,7 @@ fn render_expr(e: &RawExpr, cx: &mut ExprCtx) -> String {
             format!("({} {} {})", render_expr(a, cx), op, render_expr(b, cx))
         }
         RawExpr::Call(k, args) => {
+            let fill = (*k as usize / FN_SYMBOLS.len()) % 4;
             let k = *k as usize % FN_SYMBOLS.len();
             let (name, arity) = FN_SYMBOLS[k];
             // without regulators: the zero-arity symbol, or a symbol applied to constants
@@ -170,10 +171,20 @@ fn render_expr(e: &RawExpr, cx: &mut ExprCtx) -> String {
             if arity == 0 {
                 return name.to_string();
             }
-            let mut rendered = vec![];
+            // missing arguments: other regulators, or (fill modes 1 / 2) the first argument again,
+            // plain or negated - `g(a, a)`, `g(a, !a)`
+            let mut rendered: Vec<String> = vec![];
             for i in 0..arity {
                 let a = match args.get(i) {
                     Some(a) => render_expr(a, cx),
+                    None if i > 0 && fill == 1 => rendered[0].clone(),
+                    None if i > 0 && fill == 2 => {
+                        if rendered[0].starts_with('(') || !rendered[0].contains(' ') {
+                            format!("!{}", rendered[0])
+                        } else {
+                            format!("!({})", rendered[0])
+                        }
+                    }
                     None => render_expr(&RawExpr::Reg((i * 30000) as u16), cx),
                 };
                 rendered.push(a);
@@ -370,7 +381,8 @@ pub enum RawF {
     Repeat(u16, u16),
     /// two quantified copies of one body: `(Q1{v} in %d%: body) op (Q2{v'} in %d'%: body)`, the second
     /// one optionally one quantifier deeper (so that it gets another internal name); d' is the same
-    /// label, another label or absent depending on the variant
+    /// label, another label or absent depending on the variant; optionally both bodies are jumps to
+    /// their own variable, and optionally a third copy without a domain follows
     Twin(u8, u16, u8, Box<RawF>),
     /// `Q1{u}: Q2{v}: (body(u, v) op body(v, u))`: the same body twice with the two variables in
     /// exchanged roles (duplicates that differ only in variable names, as in the usual
@@ -717,6 +729,10 @@ fn resolve_node(raw: &RawF, env: &FEnv, scope: &mut Vec<String>, seen: &mut Vec<
             scope.push(v.clone());
             let b = resolve_rec(body, env, scope, seen);
             scope.pop();
+            // variant bit 4: the copies are jumps to their own variable (`Q{v} in %d%: @{v}: body`)
+            let b = if variant & 16 != 0 { F::Hyb(HybOp::Jump, v.clone(), None, Box::new(b)) } else { b };
+            // variant bit 5: a third copy without a domain follows
+            let third = if variant & 32 != 0 { Some(F::Hyb(quants[((*ops / 45) % 3) as usize], v.clone(), None, Box::new(b.clone()))) } else { None };
             let first = F::Hyb(q1, v.clone(), d1, Box::new(b.clone()));
             // second copy: same body, optionally wrapped one quantifier deeper
             let second = if variant & 4 != 0 {
@@ -733,10 +749,14 @@ fn resolve_node(raw: &RawF, env: &FEnv, scope: &mut Vec<String>, seen: &mut Vec<
             } else {
                 F::Hyb(q2, v.clone(), d2, Box::new(b))
             };
-            if variant & 8 != 0 {
+            let pair = if variant & 8 != 0 {
                 F::Bin(bop, Box::new(second), Box::new(first))
             } else {
                 F::Bin(bop, Box::new(first), Box::new(second))
+            };
+            match third {
+                Some(t) => F::Bin(BIN_OPS[((*ops / 9 + 1) % 5) as usize], Box::new(pair), Box::new(t)),
+                None => pair,
             }
         }
         RawF::Chain(len, op, leaves, body) => {
